@@ -666,6 +666,36 @@ func gen(seed uint64, tier string) {
 		}
 		fmt.Fprintf(out, "fcmp %s %s\n", vproto.F2H(x), vproto.F2H(y))
 	}
+	// more than 2^16 vertices / members at ONE level, for every captured counter (i, j, k) of every Points() closure and
+	// every Len()/Bounds() loop: a 16-bit index or count wraps here and nowhere else (phase 4, self-mutation Q7). All
+	// coordinates distinct, the extremes in the last quarter. Emitted last: a failing small input is found first.
+	for _, g := range hugeCorpus() {
+		fmt.Fprintf(out, "geom %s\n", vproto.GeomToks(g))
+	}
+}
+
+func hugeCorpus() []geom.Geom {
+	const n = 1<<16 + 77
+	ps := make([]geom.Point, n)
+	for i := range ps {
+		ps[i] = P(float64(i), float64(-3*i))
+	}
+	ps[n-5] = P(-7, 9)
+	rings := make(geom.Polygon, n)       // n rings of one vertex, every 97th empty
+	mls := make(geom.MultiLineString, n) // n line strings
+	mpg := make(geom.MultiPolygon, n)    // n polygons
+	gc := make(geom.GeometryCollection, n)
+	for i := range ps {
+		if i%97 == 3 {
+			rings[i], mls[i], mpg[i], gc[i] = geom.Path{}, geom.LineString{}, geom.Polygon{{}}, geom.MultiPoint{}
+			continue
+		}
+		rings[i] = ps[i : i+1]
+		mls[i] = geom.LineString(ps[i : i+1])
+		mpg[i] = geom.Polygon{ps[i : i+1]}
+		gc[i] = ps[i]
+	}
+	return []geom.Geom{geom.LineString(ps), geom.Polygon{{}, ps}, rings, mls, mpg, gc}
 }
 
 // ---------------------------------------------------------------- implementation runner
